@@ -23,9 +23,22 @@ def bits(x):
 	return int(np.float32(x).view(np.uint32))
 
 
-def _arr(vals, dt):
+def _arr(vals, dt, form=None):
+	"""the values as an ndarray: contiguous (default), a strided view, a read-only array, or a slice of a larger buffer"""
 	import numpy as np
-	return np.array(vals, dtype=np.dtype(dt))
+	a = np.array(vals, dtype=np.dtype(dt))
+	if form == 'strided':
+		big = np.empty(len(a) * 2 + 1, dtype=a.dtype)
+		big[:] = a[0] if len(a) else 0
+		big[1::2][:len(a)] = a
+		return big[1::2][:len(a)]
+	if form == 'readonly':
+		a.setflags(write=False)
+		return a
+	if form == 'window':
+		big = np.concatenate([np.array([0, 1, 2], dtype=a.dtype), a, np.array([5, 6], dtype=a.dtype)])
+		return big[3:3 + len(a)]
+	return a
 
 
 def check(ctx, case):
@@ -34,8 +47,13 @@ def check(ctx, case):
 	kind = case['kind']
 	if kind == 'pair':
 		a, b = case['a'], case['b']
-		A, B = _arr(a, case['da']), _arr(b, case['db'])
+		A, B = _arr(a, case['da'], case.get('fa')), _arr(b, case['db'], case.get('fb'))
 		lines = []
+		if case.get('prev') is not None and len(case['prev']) == len(a) and case.get('fa') in (None, 'window'):
+			# the same array object held other contents during an earlier call and was then overwritten in place
+			A[...] = np.array(case['prev'], dtype=A.dtype)
+			metric.jaccarddist(A, B); metric.jaccard(A, B)
+			A[...] = np.array(a, dtype=A.dtype)
 		for (x, y, X, Y) in ((a, b, A, B), (b, a, B, A)):
 			try:
 				d = metric.jaccarddist(X, Y)
@@ -191,7 +209,11 @@ def run(ctx):
 			break
 		a, b = gen_pair(rng, 60 if rng.random() < 0.9 else ctx.q(800, 5000))
 		da, db = rng.choice(DTYPES), rng.choice(DTYPES)
-		sub({'kind': 'pair', 'a': a, 'b': b, 'da': da, 'db': db}, 'random-pair')
+		case = {'kind': 'pair', 'a': a, 'b': b, 'da': da, 'db': db, 'fa': rng.choice([None, None, 'strided', 'readonly', 'window']), 'fb': rng.choice([None, None, 'strided', 'readonly', 'window'])}
+		if rng.random() < 0.2 and a:
+			case['prev'] = sorted(rng.sample(range(2 ** 15 - 1), len(a)))
+			case['fa'] = rng.choice([None, 'window'])
+		sub(case, 'random-pair')
 	# each side in its own integer type over that type's whole range (mixed widths where the values do NOT fit the narrower type)
 	for j in range(ctx.q(1500, 30000)):
 		if not ctx.time_left(0.78):
